@@ -78,9 +78,17 @@ class ReaderPaths(object):
                 st.data['k'] = k + 1
                 st.data.setdefault('args', {})[k] = t[2]
                 return ('sym', 'field', k)
+            if child_read(st, t[1]):
+                return t        # a child read inside the node's loop: stays a call, however small the method it reaches
             return None
-        self.paths = SymExec(self.entry, unroll=1, on_call=on_call, inline_also=tuple((methods & set(VOCABULARY)) - {next_name, 'check', 'peek'}),
-                             no_inline=(next_name,)).run()
+
+        def child_read(st, f):
+            opened = sum(1 for e in st.events if e[0] == 'loop-enter') - sum(1 for e in st.events if e[0] == 'loop-exit')
+            return opened > 0 and any(x[0] == 'attr' and x[1] == N('self') and x[2] in methods - {next_name, 'check', 'peek'} for x in subterms(f))
+        ex = SymExec(self.entry, unroll=1, on_call=on_call, inline_also=tuple((methods & set(VOCABULARY)) - {next_name, 'check', 'peek'}),
+                     no_inline=(next_name,))
+        ex.fork_filter = lambda st, f: not child_read(st, f)
+        self.paths = ex.run()
         self.by_kind = {'leaf': [], 'unary': [], 'binary': [], 'other': []}
         for st, o in self.paths:
             made = [e[1][1][2] for e in st.events if e[0] == 'call' and e[1][1][0] == 'attr' and e[1][1][1] == N('Tree') and e[1][1][2].startswith('make_')]
